@@ -7,6 +7,7 @@ import multiprocessing
 import os
 import random
 import signal
+import threading
 import time
 
 import labtech
@@ -91,6 +92,9 @@ class Script:
         self.max_running_seen = 0
         self.violations = []
         self.pstarts = []
+        self.carry = []
+        self.after_drain = None
+        self.p_late = 0.2
         self.interrupt_hook = None
         self.executor = None
         self.forced = None          # optional: per executor wait, the task ids whose workers finish
@@ -176,7 +180,9 @@ class ScriptedExecutor(P.ProcessExecutor):
         return future
 
     def wait(self, futures, *, timeout_seconds):
-        envs = []
+        # a worker that was let go right after the previous drain: for the executor (and the model) it finished before this wait
+        envs = list(SCRIPT.carry)
+        SCRIPT.carry = []
         running = self._running_pairs()
         alive = [(f, p) for f, p in running if p.is_alive()]
         rng = SCRIPT.rng
@@ -199,8 +205,20 @@ class ScriptedExecutor(P.ProcessExecutor):
                     p.release_and_join()
                     envs.append(['finish', self._fid(f)])
         had_dead = [self._fid(f) for f, p in self._running_pairs() if not p.is_alive()]
+        late = []
+        still = [(f, p) for f, p in self._running_pairs() if p.is_alive()]
+        if SCRIPT.forced is None and still and rng.random() < SCRIPT.p_late:
+            lf, lp = rng.choice(still)
+
+            def _after_drain(lf=lf, lp=lp):
+                lp.release_and_join()
+                SCRIPT.carry.append(['finish', self._fid(lf)])
+                late.append(self._fid(lf))
+            SCRIPT.after_drain = _after_drain
         res = super().wait(futures, timeout_seconds=0.005)
+        SCRIPT.after_drain = None
         obs = self._obs()
+        obs['alive'] += len(late)        # it was alive when this wait() looked
         # C11/C05: every worker that was dead when wait() began has been noticed and its slot freed
         left = [i for i in had_dead if i in obs['running']]
         if left:
@@ -236,6 +254,18 @@ class L2Backend(RunnerBackend):
         return L2Runner(context=context, storage=storage, max_workers=max_workers)
 
 
+class _HookThread(threading.Thread):
+    """The executor drains its result queue in a helper thread and joins it; right after that join the script may let one more
+    worker finish: its result arrives, and the worker exits, after the drain and before the executor looks at anything else."""
+
+    def join(self, timeout=None):
+        super().join(timeout)
+        cb = getattr(SCRIPT, 'after_drain', None) if SCRIPT is not None else None
+        if cb is not None and threading.current_thread() is threading.main_thread():
+            SCRIPT.after_drain = None
+            cb()
+
+
 class patched:
     """Route worker creation to GatedProcess whichever constructor the source calls."""
 
@@ -243,10 +273,15 @@ class patched:
         self.saved = (P.ProcessExecutor, P.multiprocessing.Process)
         P.ProcessExecutor = ScriptedExecutor
         P.multiprocessing.Process = GatedProcess
+        self.saved_thread = getattr(P, 'Thread', None)
+        if self.saved_thread is threading.Thread:
+            P.Thread = _HookThread
         return self
 
     def __exit__(self, *a):
         P.ProcessExecutor, P.multiprocessing.Process = self.saved
+        if self.saved_thread is threading.Thread:
+            P.Thread = self.saved_thread
         for p in GatedProcess.started:
             if p.is_alive():
                 p.kill()
